@@ -1378,6 +1378,35 @@ def rt_c06(tier="quick", first_only=False, count=None):
                 fails.append(dict(what=f"_get_ufunc_signature({ins}, {outs}) = {got!r}, expected {want!r}", case=dict(ins=[list(s) for s in ins])))
                 if first_only:
                     return fails
+    # bijection._vectorize (what BijectionReparam and Transformed apply to batches): batched == elementwise unbatched, on the zoo
+    zrng = np.random.default_rng(3)
+    for zname, zb, zcd in bijection_zoo():
+        if tier == "quick" and any(t in zname for t in ("trained", "BlockAutoregressive", "Planar")):
+            continue
+        for xb, cb in (((3,), ()), ((2, 2), (2,))) if zcd is not None else (((3,), None), ((2, 1), None)):
+            n += 1
+            X = jnp.asarray(zrng.normal(size=xb + tuple(zb.shape)) * 0.8)
+            Cn = None if zcd is None else jnp.asarray(zrng.normal(size=cb + (zcd,)))
+            case = dict(bijection=zname, x_batch=list(xb))
+            try:
+                Y, LDs = zb._vectorize.transform_and_log_det(X, Cn)
+                Yt = zb._vectorize.transform(X, Cn)
+            except NotImplementedError:
+                continue
+            except Exception as ex:  # noqa: BLE001
+                fails.append(dict(what=f"{zname}._vectorize.transform_and_log_det of a batch {xb} raised {type(ex).__name__}: {str(ex)[:160]}", case=case))
+                continue
+            if tuple(np.shape(Y)) != xb + tuple(zb.shape) or tuple(np.shape(LDs)) != xb:
+                fails.append(dict(what=f"{zname}._vectorize.transform_and_log_det of a batch {xb}: output shapes {np.shape(Y)}, {np.shape(LDs)}; expected {xb + tuple(zb.shape)}, {xb}", case=case))
+                continue
+            for idx in np.ndindex(*xb):
+                ci = None if Cn is None else (Cn if cb == () else Cn[idx[-len(cb):]] if len(cb) else Cn)
+                y1, l1 = zb.transform_and_log_det(X[idx], ci)
+                if not (np.allclose(np.asarray(Y[idx]), np.asarray(y1), rtol=1e-9, atol=1e-12) and np.allclose(np.asarray(Yt[idx]), np.asarray(y1), rtol=1e-9, atol=1e-12) and _close(LDs[idx], l1, tol=1e-9)):
+                    fails.append(dict(what=f"{zname}._vectorize: element {idx} of a batched transform_and_log_det differs from the unbatched call on that slice", case=case))
+                    break
+            if first_only and fails:
+                return fails
     # real distributions whose value depends on x and on the condition
     def cond_dist(event, cshape):
         return Dm.Transformed(Dm.Normal(jnp.zeros(event), jnp.ones(event)), B.AdditiveCondition(lambda c: 0.7 * jnp.sum(c) + jnp.zeros(event), event, cshape))
